@@ -382,7 +382,7 @@ func (e *Engine) RunWorkload(wl *Workload) {
 	s.close()
 	disk.SetHook(nil)
 	for _, v := range disk.IDViolations {
-		e.report(&failure{props: []string{"C13"}, class: "id-rule", desc: v}, replay(nil))
+		e.report(&failure{props: []string{"C13"}, class: "id-rule:" + idClass(v), desc: v}, replay(nil))
 	}
 	if f, m := disk.OpenHandles(); f != 0 || m != 0 {
 		e.report(&failure{props: []string{"C14", "C13"}, class: "handles-after-close", desc: fmt.Sprintf("%d file handles and %d meta stores still open after Close", f, m)}, replay(nil))
@@ -512,7 +512,11 @@ func (e *Engine) checkRecovery(wl *Workload, pt *Point, v simfs.Variant, img *si
 	}
 
 	if err := s.open(); err != nil {
-		e.report(&failure{props: []string{"C03", "C01"}, class: "open-failed:" + errClass(err),
+		props := []string{"C03", "C01"}
+		if errors.Is(err, os.ErrExist) {
+			props = append(props, "C13") // creating a segment collided with an existing file
+		}
+		e.report(&failure{props: props, class: "open-failed:" + errClass(err),
 			desc: fmt.Sprintf("Open failed on a crash image (%s, variant %s, in-flight %s): %v", pt.Call, v.Name, opString(pt.InFlight), err)}, replay(nil))
 		return
 	}
@@ -562,7 +566,7 @@ func (e *Engine) checkRecovery(wl *Workload, pt *Point, v simfs.Variant, img *si
 	}
 	c.Count("continuations_ok", 1)
 	for _, vv := range img.IDViolations {
-		e.report(&failure{props: []string{"C13"}, class: "id-rule", desc: vv}, replay(nil))
+		e.report(&failure{props: []string{"C13"}, class: "id-rule:" + idClass(vv), desc: vv}, replay(nil))
 	}
 
 	// nesting
@@ -574,13 +578,14 @@ func (e *Engine) checkRecovery(wl *Workload, pt *Point, v simfs.Variant, img *si
 			// keep all Open-phase points first (they are the "crash inside recovery" ones), sample the rest
 			var openPts, rest []*Point
 			for _, p := range pts {
-				if p.Phase == "open" {
+				if p.Phase == "open" || p.Phase == "cont-retry" {
 					openPts = append(openPts, p)
 				} else {
 					rest = append(rest, p)
 				}
 			}
 			rng.Shuffle(len(rest), func(i, j int) { rest[i], rest[j] = rest[j], rest[i] })
+			rng.Shuffle(len(openPts), func(i, j int) { openPts[i], openPts[j] = openPts[j], openPts[i] })
 			pts = openPts
 			if len(pts) > e.P.NestedPoints {
 				pts = pts[:e.P.NestedPoints]
@@ -666,13 +671,24 @@ func (e *Engine) continuation(wl *Workload, s *session, l *model.Log, pt *Point,
 		((l.Empty() && true) || pt.InFlight.Logs[0].Index == l.Last+1) && rng.Intn(4) != 0 {
 		n := len(pt.InFlight.Logs)
 		k := 1 + rng.Intn(n)
+		identical := rng.Intn(2) == 0
 		var logs []*raft.Log
 		for _, lg := range pt.InFlight.Logs[:k] {
 			c := model.CopyLog(lg)
-			c.Term += 100 // same encoded size for small terms, different identity
+			if !identical {
+				c.Term += 100 // same encoded size for small terms, different identity
+			}
 			logs = append(logs, c)
 		}
-		if f := step(gen.Op{Kind: "append", Logs: logs}); f != nil {
+		// raft re-sends the same entries but may batch them differently: add new ones
+		for x := rng.Intn(3); x > 0; x-- {
+			idx := logs[len(logs)-1].Index + 1
+			logs = append(logs, gen.Entry(rng, idx, tag+"n", 8+rng.Intn(40)))
+		}
+		rs.phase.Store("cont-retry")
+		f := step(gen.Op{Kind: "append", Logs: logs})
+		rs.phase.Store("cont")
+		if f != nil {
 			return f
 		}
 		e.C.Count("retry_prefix_continuations", 1)
@@ -1001,4 +1017,15 @@ func metaBrief(m *simfs.MetaState) []string {
 		out = append(out, fmt.Sprintf("id=%d base=%d min=%d max=%d sealed=%v indexStart=%d", s.ID, s.BaseIndex, s.MinIndex, s.MaxIndex, !s.SealTime.IsZero(), s.IndexStart))
 	}
 	return out
+}
+
+func idClass(v string) string {
+	if i := strings.IndexByte(v, ':'); i > 0 && i < 30 {
+		return v[:i]
+	}
+	f := strings.Fields(v)
+	if len(f) > 3 {
+		f = f[:3]
+	}
+	return strings.Join(f, "-")
 }
